@@ -40,13 +40,21 @@ impl<'a> Operator<&'a Vec<u64>> for Maker {
 fn generation_replay() {
     let n: usize = std::env::var("GEN_N").ok().and_then(|s| s.parse().ok()).unwrap_or(0);
     let fail_at: Vec<usize> = std::env::var("GEN_FAIL").unwrap_or_default().split(',').filter(|s| !s.is_empty()).map(|x| x.parse().unwrap()).collect();
+    let threads: usize = std::env::var("GEN_THREADS").ok().and_then(|s| s.parse().ok()).unwrap_or(0);
     let par = std::env::var("GEN_WHICH").map(|s| s == "par_next").unwrap_or(false);
     let old: Vec<u64> = (0..n as u64).collect();
     let mut bad: Vec<String> = Vec::new();
     for rep in 0..200 {
         let obs = Arc::new(Obs::default());
         let mut g = Generation::new(Maker { obs: obs.clone(), fail_at: fail_at.clone() }, old.clone());
-        let r = if par { g.par_next() } else { g.serial_next() };
+        let r = if par && threads > 0 {
+            // a pool of the size chosen by the solver (the code under test may ask rayon for its pool size)
+            rayon::ThreadPoolBuilder::new().num_threads(threads).build().unwrap().install(|| g.par_next())
+        } else if par {
+            g.par_next()
+        } else {
+            g.serial_next()
+        };
         let after = g.population().clone();
         let calls = obs.calls.load(Ordering::SeqCst);
         let shown = obs.shown.lock().unwrap().clone();
